@@ -3,9 +3,11 @@ CONSTANTS
   EmptyAnglePathIsCwd = TRUE
   ExplicitByCanonical = FALSE
   KeyByCanonical = TRUE
+  LookupCanonical = TRUE
   MaxIncludes = 3
 INVARIANT Refines
 INVARIANT RefSane
 INVARIANT OnceOnly
+INVARIANT OwnRefines
 CONSTRAINT DumpConstraint
 CHECK_DEADLOCK FALSE
